@@ -87,7 +87,7 @@ def build(P):
             return ["FOR iteration sequence: expected %r, the interpreter printed %r (exit %d)" % (exp, r.out.decode("latin1"), r.exit)]
         return []
 
-    C03 = dict(cases=c03_cases, model_is_oracle=("out", "exit", "files", "termination"), oracle=c03_oracle,
+    C03 = dict(cases=c03_cases, builds_quick=["normal", "san"], model_is_oracle=("out", "exit", "files", "termination"), oracle=c03_oracle,
                nontrivial=lambda c, r, m: (b"@" in r.out) or ("expect" in c.meta) or c.id.startswith("C03-shape"),
                rule="(start,stop,step) cube [-3,3]^3 (quick) / [-4,4]^3 (thorough) with bounds re-assigned in the body, expected sequence computed by the harness; "
                     "hand-built BREAK/CONTINUE/CASE/condition-type shapes in all loop forms, nested; typed generator nesting IF/CASE/WHILE/REPEAT/FOR to depth 4 with "
@@ -162,7 +162,7 @@ def build(P):
         for ch in chunks(cs, 400):
             yield ("generator", ch)
 
-    C04 = dict(cases=c04_cases, model_is_oracle=("out", "exit", "files", "termination"), nontrivial=lambda c, r, m: b"proc " in r.out or b"fn " in r.out or c.id.startswith("C04-shape") or c.id.startswith("C04-call"),
+    C04 = dict(cases=c04_cases, builds_quick=["normal", "san"], model_is_oracle=("out", "exit", "files", "termination"), nontrivial=lambda c, r, m: b"proc " in r.out or b"fn " in r.out or c.id.startswith("C04-shape") or c.id.startswith("C04-call"),
                rule="every (PROCEDURE/FUNCTION, BYREF/BYVAL/default, parameter type, argument type, argument form: variable, literal, parenthesised, computed, element, field, constant) call; hand-built shapes for sticky BYREF/BYVAL and shared-type parameter lists, BYREF chains / elements / fields, recursion to depth 50, shadowing, "
                     "call errors; typed generator with up to 4 procedures/functions whose bodies and call sites are random; caller state dumped at the end; "
                     "non-trivial = distinct program in which a procedure or function body ran (trace tag)",
